@@ -86,8 +86,10 @@ MergeStep(acc, m, first) ==
   IN TObj(ks2, [i \in DOMAIN ks2 |-> val(ks2[i])])
 
 RECURSIVE MergeAll(_, _, _)
+\* (the LET + equality forces TLC to evaluate each step once instead of passing a growing lazy expression down)
 MergeAll(acc, ms, first) ==
-  IF ms = <<>> THEN acc ELSE MergeAll(MergeStep(acc, Head(ms), first), Tail(ms), FALSE)
+  IF ms = <<>> THEN acc
+  ELSE LET r == MergeStep(acc, Head(ms), first) IN IF r = r THEN MergeAll(r, Tail(ms), FALSE) ELSE r
 MergeFieldSets(ms) == MergeAll(TObj(<<>>, <<>>), ms, TRUE)
 
 \* ------------------------------------------------------------------ resolve
